@@ -285,6 +285,9 @@ pub enum Template {
     /// on one vthread, then completed (or dropped) on a short-lived vthread that exits; a vthread
     /// born afterwards makes its first tracing call; then the trace finishes
     PoolAdapter,
+    /// a captured set is pushed to a span while the thread's ring is full (the push is dropped:
+    /// permitted), a cycle drains the ring, the same set is pushed to the same span again
+    OverloadPush,
     /// a scope with open local spans is filled to (or just short of) its limit; local spans,
     /// events and properties follow while it is full, then everything unwinds
     ScopeFull,
@@ -794,6 +797,26 @@ fn template_strategy(p: &Profile, t: Template) -> BoxedStrategy<Program> {
                 // t0 up to its first poll; t1 to its exit; t2 (a new thread); t0 finishes and flushes
                 let schedule = vec![(0u8, n0), (86, 255), (128, 255)];
                 Program { cancelable, threads: vec![t0, t1, t2], cycles: 0, schedule, fine: false, pool, lazy_reg: false, idle_cycles: 0 }
+            })
+            .boxed(),
+        Template::OverloadPush => (canc, 0u8..2, 1usize..4, proptest::collection::vec(op.clone(), 0..3), any::<bool>(), 2u8..6, sched)
+            .prop_map(move |(cancelable, leave, nlocal, tail, second_target, cycles, schedule)| {
+                let mut t0 = vec![root.clone(), Op::Child { parents: vec![0], np: 0, s: StrSeed { c: 0, l: 1 } }, Op::CollectorStart { probe: false }];
+                for _ in 0..nlocal {
+                    t0.push(Op::EnterLocal { np: 0, s: StrSeed { c: 0, l: 1 }, probe: false, re: vec![] });
+                    t0.push(Op::PopGuard { collect: true, early: false, unwind: false });
+                }
+                t0.push(Op::PopGuard { collect: true, early: false, unwind: false });
+                let target = if second_target { 65535 } else { 0 };
+                t0.push(Op::Fill { leave });
+                t0.push(Op::PushChildSpans { span: target, set: 0, last: false });
+                t0.push(Op::Flush);
+                t0.push(Op::PushChildSpans { span: target, set: 0, last: false });
+                t0.extend(tail);
+                t0.push(Op::Finish { span: 65535 });
+                t0.push(Op::Finish { span: 0 });
+                t0.push(Op::Flush);
+                Program { cancelable, threads: vec![t0], cycles, schedule, fine: false, pool: 0, lazy_reg: false, idle_cycles: 0 }
             })
             .boxed(),
         Template::ScopeFull => (
